@@ -118,7 +118,7 @@ vars == <<hist, cur, sts, out, fin, law, idx>>
 
 Apply2(h, c, g, o, st, rI) ==
   LET rD == IF g["D"] # "ok" THEN ER(c["D"], Null, IF g["D"] = "wild" THEN "wild" ELSE "dead")
-            ELSE LET r == Exec(c["D"], st, TRUE) IN IF r.status = "open" THEN [r EXCEPT !.status = "wild"] ELSE r
+            ELSE LET r == Exec(c["D"], st, TRUE) IN IF r.status = "open" \/ (r.status = "ok" /\ r.s.pe) THEN [r EXCEPT !.status = "wild"] ELSE r
       eI == LExpect(rI.s, st, rI.res, rI.status, NArr)
       eD == LExpect(rD.s, st, rD.res, rD.status, NArr)
   IN [hist |-> Append(h, st),
@@ -133,7 +133,7 @@ RECURSIVE RunGiven(_, _)
 RunGiven(s, ops) ==
   IF ops = <<>> \/ s.fin THEN s
   ELSE LET rI == Exec(s.cur["I"], Head(ops), FALSE) IN
-       IF rI.status \notin {"ok", "error"} THEN RunGiven(s, Tail(ops))
+       IF rI.status \notin {"ok", "error"} \/ rI.s.pe THEN RunGiven(s, Tail(ops))
        ELSE LET t == Apply2(s.hist, s.cur, s.sts, s.out, Head(ops), rI) IN RunGiven([t EXCEPT !.law = LAll({@, s.law})], Tail(ops))
 Given == IF Mode = "given" THEN JsonDeserialize("given.json") ELSE <<>>
 
@@ -149,6 +149,7 @@ NextOp ==
   /\ \E st \in (IF Mode = "depth" THEN Small ELSE Big) :
        LET rI == Exec(cur["I"], st, FALSE) IN
        /\ rI.status \in {"ok", "error"}
+       /\ ~rI.s.pe            \* a read past the end is C09's matter (the pinned code pads the array there)
        /\ LET s == Apply2(hist, cur, sts, out, st, rI) IN
           /\ hist' = s.hist /\ cur' = s.cur /\ sts' = s.sts /\ out' = s.out /\ law' = s.law /\ fin' = s.fin
 Next == NextGiven \/ NextOp
